@@ -333,6 +333,9 @@ func TestC39(t *testing.T) {
 				}
 			}
 			rec.Case(!srcLocal || !predefined, desc, keysOf(labels)...)
+			rec.Sample(func() any {
+				return map[string]any{"case": desc, "level1": fmt.Sprintf("%x", wantL1), "as_host": fmt.Sprintf("%x", wantAH), "host_host": fmt.Sprintf("%x", wantHH)}
+			})
 		}
 		// ---- acceptance window
 		fp := &drkeyutil.FakeProvider{EpochDuration: time.Duration(dur) * time.Second, AcceptanceWindow: time.Duration(rapid.SampledFrom([]int{2, 10, 30}).Draw(rt, "windowSeconds")) * time.Second}
